@@ -163,7 +163,7 @@ C16 = Prop(
          "map insert-then-lookup over grids; seeded random values incl. one-leaf differences. The harness prints each "
          "leaf's std::hash, so the model predicts the exact 64-bit combined hash. Non-trivial: at least two leaves. "
          "Distinct = distinct case line. " \
-                "Every mix-in comparison also overwrites a hashed copy of x member by member with y's members (through as_tuple()) and demands hash and operators of the value it now holds; the set family fills a second set through one reused scratch key; 40 (thorough: 200) pairs of unequal (int64, uint64, double) values whose combined hashes collide, solved from the combiner.",
+                "Every mix-in comparison also overwrites a hashed copy of x member by member with y's members (through as_tuple()) and demands hash and operators of the value it now holds; the set family fills a second set through one reused scratch key; 40 (thorough: 200) pairs of unequal (int64, uint64, double) values whose combined hashes collide, solved from the combiner. Order clause: two values whose leaf hashes are a transposition of each other (two components exchanged) must hash differently.",
     harness=HARNESS, search=lambda dis, rng: gen_c16("thorough", rng),
     theorem_hint="NitroVerif.Props.C16.{eq_hash,ops_agree_with_lex,trichotomy,order_trans,six_consistent,combine_inj,"
                  "tuple_last_injective,pair_second_injective,order_matters}",
